@@ -45,7 +45,7 @@ theorem Chain.A_lt {b : Base} {s : St} : ∀ (acts : List Act) (D : List Cell) (
       simp only [Bool.false_eq_true, if_false] at h3
       rw [h3]; simp⟩⟩
   | a :: r, D, S, addr, h => by
-    obtain ⟨r', tail, h1, _, _, h4, _, h6⟩ := h
+    obtain ⟨r', tail, h1, _, _, h4, _, _, h6⟩ := h
     obtain ⟨ih1, ih2⟩ := Chain.A_lt r _ _ _ h6
     rw [h1]
     simp only [List.length_cons]
